@@ -2,3 +2,4 @@ pub mod name;
 pub mod wire;
 pub mod zone;
 pub mod cache;
+pub mod upstream;
